@@ -3,6 +3,7 @@ package main
 import (
 	"fmt"
 	"reflect"
+	"strings"
 
 	"github.com/gopacket/gopacket"
 	"github.com/gopacket/gopacket/layers"
@@ -172,6 +173,7 @@ func c01One(c *vlib.Ctx, r *vlib.Rand, t gopacket.LayerType, b []byte, how strin
 	}
 	renderSets := map[int]bool{r.Intn(16): true, r.Intn(16): true, 0: true}
 	var errSeen [16]int // 0 unknown, 1 nil, 2 non-nil
+	lastOK := ""       // last layer of a variant that decoded without error: names what decoded differently
 	nontrivial := false
 	for oi, o := range allOptionSets {
 		var p gopacket.Packet
@@ -211,6 +213,9 @@ func c01One(c *vlib.Ctx, r *vlib.Rand, t gopacket.LayerType, b []byte, how strin
 			errSeen[oi] = 2
 		} else {
 			errSeen[oi] = 1
+			if ls := p.Layers(); len(ls) > 0 {
+				lastOK = strings.ReplaceAll(ls[len(ls)-1].LayerType().String(), " ", "_")
+			}
 		}
 	}
 	if len(b) > 0 {
@@ -225,7 +230,7 @@ func c01One(c *vlib.Ctx, r *vlib.Rand, t gopacket.LayerType, b []byte, how strin
 				if first == 0 {
 					first = errSeen[oi]
 				} else if errSeen[oi] != first {
-					c.Violation("error-layer-depends-on-options:"+t.String(), fmt.Sprintf("with %s the packet reports error=%v, with %s error=%v", optString(allOptionSets[half*8]), first == 2, optString(allOptionSets[oi]), errSeen[oi] == 2), det(allOptionSets[oi]))
+					c.Violation("error-layer-depends-on-options:"+lastOK, fmt.Sprintf("with %s the packet reports error=%v, with %s error=%v", optString(allOptionSets[half*8]), first == 2, optString(allOptionSets[oi]), errSeen[oi] == 2), det(allOptionSets[oi]))
 					break
 				}
 			}
